@@ -12,6 +12,7 @@ import (
 	"runtime"
 	"sort"
 	"strings"
+	"time"
 
 	"ebuverif/internal/evt"
 	"ebuverif/internal/h"
@@ -199,11 +200,28 @@ func (in *Inst) exec(id int, o Op) {
 	case ClearAll:
 		eventbus.ClearAll(in.Bus)
 	case Pub:
-		t.Pub(in.Bus, evID(id, o.Odd))
+		// every other publish goes through an interface-typed type parameter
+		// (PublishContext[any]): the event's type is its dynamic one, for routing and for
+		// everything that is done for the publish afterwards
+		if id%2 == 1 {
+			t.PubAny(in.Bus, context.Background(), evID(id, o.Odd))
+		} else {
+			t.Pub(in.Bus, evID(id, o.Odd))
+		}
 	case PubCancelled:
+		// a context that is already done: cancelled, with a deadline in the past, or with a
+		// timeout of zero (the last two report DeadlineExceeded, not Canceled)
 		ctx, cancel := context.WithCancel(context.Background())
-		cancel()
+		switch id % 3 {
+		case 0:
+			cancel()
+		case 1:
+			ctx, cancel = context.WithDeadline(context.Background(), time.Unix(1, 0))
+		case 2:
+			ctx, cancel = context.WithTimeout(context.Background(), 0)
+		}
 		t.PubCtx(in.Bus, ctx, evID(id, o.Odd))
+		cancel()
 	case PubRace:
 		t.PubCtx(in.Bus, in.raceCtx, evID(id, o.Odd))
 	case CancelCtx:
